@@ -1052,9 +1052,18 @@ def r_drainlit(f):
                 hd = Dfx(hb)
                 rets = [strip(hd.rvalue(st2["rv"])) for _, _, st2 in hb.stmts() if st2["k"] == "assign" and st2["p"]["local"] == 0 and not st2["p"]["proj"]]
                 if len(rets) == 1 and rets[0][0] == "agg" and rets[0][1] == "tuple" and e[2] < len(rets[0][2]):
-                    # no direct store to the field in the helper (it may only be changed through the replace itself)
-                    direct = any(st2["k"] == "assign" and st2["p"]["proj"] and strip(hd.place(st2["p"])) == ("field", ("deref", ("param", 1)), fi[name]) for _, _, st2 in hb.stmts())
-                    return not direct and is_dim(rets[0][2][e[2]], name, depth + 1)
+                    # no direct store to the field in the helper (it may only be changed through the replace itself) - unless the
+                    # tuple is built BEFORE the stores (`let former = (len, self.num_cols, self.num_rows); self.num_cols = 0; ..`)
+                    stores_ = [(bi2, si2) for bi2, si2, st2 in hb.stmts() if st2["k"] == "assign" and st2["p"]["proj"] and strip(hd.place(st2["p"])) == ("field", ("deref", ("param", 1)), fi[name])]
+                    direct = bool(stores_)
+                    if direct:
+                        # where the field is read into the tuple: the statement `tmp = copy (*_1).field` feeding the aggregate
+                        reads_ = [(bi2, si2) for bi2, si2, st2 in hb.stmts() if st2["k"] == "assign" and st2["rv"]["k"] == "use" and st2["rv"]["o"]["k"] in ("copy", "move") and strip(hd.place(st2["rv"]["o"]["p"])) == ("field", ("deref", ("param", 1)), fi[name])]
+                        domh = hb.dominators()
+                        before = bool(reads_) and all((rb == sb and rs < ss) or (rb != sb and rb in domh.get(sb, set())) for rb, rs in reads_ for sb, ss in stores_)
+                        tup_ok = strip(rets[0][2][e[2]]) in (("field", ("deref", ("param", 1)), fi[name]), ("field", ("param", 1), fi[name]))
+                        return before and tup_ok and len(reads_) == 1
+                    return is_dim(rets[0][2][e[2]], name, depth + 1)
         return False
 
     found = False
@@ -1078,12 +1087,19 @@ def r_drainlit(f):
                 if e == ("param", 2): return I_
                 if is_dim(e, "num_cols"): return C_
                 if e[0] == "call" and e[2] == "len" and any(x[0] == "field" and x[2] == fi["data"] for x in walk(e)): return L_
+                comp_ = None
+                if e[0] == "field" and strip(e[1])[0] == "call":
+                    comp_, e = e[2], strip(e[1])         # component of a helper's result tuple
                 if e[0] == "call" and len(e) > 4 and isinstance(e[4], dict) and e[3] and strip(e[3][0]) in (("refmut", ("deref", ("param", 1))), ("param", 1), ("deref", ("param", 1))):
                     # a private helper on the array that returns the buffer length it read before lowering it
                     hb = f.crate_fn_for_call(e[4])
                     if hb is not None and hb.blocks:
                         hd = Dfx(hb)
                         rets = [strip(hd.rvalue(st2["rv"])) for _, _, st2 in hb.stmts() if st2["k"] == "assign" and st2["p"]["local"] == 0 and not st2["p"]["proj"]]
+                        if comp_ is not None and len(rets) == 1 and rets[0][0] == "agg" and rets[0][1] == "tuple" and comp_ < len(rets[0][2]):
+                            rets = [strip(rets[0][2][comp_])]
+                        elif comp_ is not None:
+                            rets = []
                         if len(rets) == 1 and rets[0][0] == "call" and rets[0][2] == "len" and any(x[0] == "field" and x[2] == fi["data"] for x in walk(rets[0])):
                             lenb = [bi2 for bi2, t2, fn2 in hb.calls() if fn2 and fn2["name"] == "len" and fn2["path"].startswith("alloc::vec::Vec")]
                             wrb = [bi2 for bi2, t2, fn2 in hb.calls() if fn2 and fn2["name"] in ("set_len", "truncate", "clear", "drain", "resize", "extend", "push")]
@@ -1671,6 +1687,12 @@ def r_rotate(f):
             after = set(b.reachable(bi)) - {bi}
             grew_before = any(bi in b.reachable(gb) and gb != bi for gb in grows)
             shrinks_after = any(sb in after for sb in shrinks)
+            # `s.rotate_right(s.len() - k)` is `s.rotate_left(k)` (and vice versa): judge the effective direction and amount
+            eff_name, eff_amount = fn["name"], (strip(d.expr(t["args"][1])) if len(t["args"]) == 2 else None)
+            if eff_amount is not None and eff_amount[0] == "bin" and eff_amount[1].startswith("Sub") and strip(eff_amount[2])[0] == "call" and strip(eff_amount[2])[2] == "len":
+                eff_name = "rotate_left" if fn["name"] == "rotate_right" else "rotate_right"
+                eff_amount = strip(eff_amount[3])
+            fn = dict(fn, name=eff_name)
             if fn["name"] == "rotate_left":
                 ok = shrinks_after or not grew_before
                 want = "a later removal of the tail (it moves the front block to the end)"
@@ -1679,7 +1701,7 @@ def r_rotate(f):
                 want = "an earlier append (it moves the end block to the front)"
             # ... and by the same amount: rotate_left(k) parks exactly the k cells that `drain(len - k..)` then removes
             if fn["name"] == "rotate_left" and len(t["args"]) == 2:
-                kr = show(strip(d.expr(t["args"][1])))
+                kr = show(eff_amount)
                 for sbi, st_, sfn in b.calls():
                     if sfn and sfn["name"] == "drain" and "alloc::vec::Vec" in sfn["path"] and sbi in after and len(st_["args"]) == 2:
                         re_ = strip(d.expr(st_["args"][1]))
